@@ -534,6 +534,7 @@ Proof.
   { by apply grow_refl. }
   destruct (by_ip (w_ipam w) x) as [e|]; [|by apply IH].
   destruct (Keys.is_empty (e_key e)); [|by apply IH].
+  destruct (existsb _ (by_key (w_ipam w) (pod_key p))); [by apply IH|].
   set (a := {| a_policy := policy_of p; a_node := pd_node p; a_uid := pd_uid p |}).
   eapply grow_trans; [|apply IH; cbn [set_ipam w_ipam]; by apply inv2_alloc_specific].
   split_and!; try done. cbn [set_ipam w_ipam]. intros y.
